@@ -33,6 +33,18 @@ def Field.set (f : Field) (buf : Bytes) (v : Nat) : Bytes :=
 
 def Field.width (f : Field) : Nat := f.msb + 1 - f.lsb
 
+/-- The accessors as the generated Rust code behaves on a backing buffer of ANY length: both loops
+index `buf[i/8]` for every `i` in `lsb..=msb`, so they panic (index out of bounds, in the file that
+declares the view) exactly when the field's highest byte is missing; the getter has no effect, the
+MSB0 setter starts at the highest index and the LSB0 fields are all single-byte, so no byte is
+written before the panic.  `Field.get` / `Field.set` are the total functions used wherever the
+buffer is known to be long enough (every view the library builds itself). -/
+def Field.getC (f : Field) (file : SrcFile) (buf : Bytes) : Out Unit Nat :=
+  if f.msb / 8 < buf.length then .ok (f.get buf) else .panic ⟨.indexOOB, file⟩
+
+def Field.setC (f : Field) (file : SrcFile) (buf : Bytes) (v : Nat) : Out Unit Bytes :=
+  if f.msb / 8 < buf.length then .ok (f.set buf v) else .panic ⟨.indexOOB, file⟩
+
 namespace SMBusHdr   -- LSB0, 4 bytes
 def destReadWrite : Field := ⟨false, 0, 0, 8⟩
 def destSlaveAddr : Field := ⟨false, 7, 1, 8⟩
